@@ -219,6 +219,15 @@ static void mon_c19(World& w) {
         // the whole frame must be there: fixed header byte, complete Remaining Length, body
         size_t i = 1, mult = 1, rl = 0; bool varint_ok = false; for (; i < e.raw.size() && i <= 4; ++i) { rl += size_t(uint8_t(e.raw[i]) & 0x7F) * mult; mult *= 128; if (!(uint8_t(e.raw[i]) & 0x80)) { varint_ok = true; ++i; break; } }
         if (!varint_ok || i + rl > e.raw.size()) continue;
+        // an acknowledgement nobody is waiting for is parked by the client without being parsed: its content is not judged
+        { int t = uint8_t(e.raw[0]) >> 4; if (t == ref::PUBACK || t == ref::PUBREC || t == ref::PUBREL || t == ref::PUBCOMP || t == ref::SUBACK || t == ref::UNSUBACK) {
+            bool header_ok = (uint8_t(e.raw[0]) & 0x0F) == (t == ref::PUBREL ? 2 : 0);
+            if (header_ok && rl >= 2) { uint16_t pid = uint16_t((uint8_t(e.raw[i]) << 8) | uint8_t(e.raw[i + 1])); int want = t == ref::PUBACK || t == ref::PUBREC ? ref::PUBLISH : t == ref::PUBCOMP ? ref::PUBREL : t == ref::PUBREL ? ref::PUBREC : t == ref::SUBACK ? ref::SUBSCRIBE : ref::UNSUBSCRIBE;
+                bool waiting = false;
+                for (auto& q : w.broker->wire) { if (q.seq >= e.seq) break; if (q.conn != e.conn || q.malformed) continue;
+                    if (q.c2b && q.pkt.type == want && q.pkt.has_pid && q.pkt.pid == pid && (want != ref::PUBLISH || q.pkt.qos() == (t == ref::PUBACK ? 1 : 2))) waiting = true;
+                    if (!q.c2b && q.pkt.type == t && q.pkt.has_pid && q.pkt.pid == pid) waiting = false; }    // already answered by a well-formed one
+                if (!waiting) continue; } } }
         const sim::Conn& cn = w.net->conns[e.conn]; size_t read_seq = SIZE_MAX;
         uint64_t frame_end = e.b2c_end - e.raw.size() + i + rl;
         for (size_t m = 0; m < cn.read_marks.size() && m < cn.read_mark_seq.size(); ++m) if (cn.read_marks[m].first >= frame_end) { read_seq = cn.read_mark_seq[m]; break; }
